@@ -53,6 +53,9 @@ type concParams struct {
 	// CrashAll (C04): recover the durable image after every mutating storage operation of the
 	// concurrent window, not only at sync acknowledgements and at the end.
 	CrashAll bool `json:"crash_all,omitempty"`
+	// Residue (C07): after the window, once the background work has settled (virtual time), the
+	// storage must hold nothing but the live tables, journal(s), manifest and CURRENT.
+	Residue bool `json:"residue,omitempty"`
 }
 
 // linInput / linOutput are the porcupine operation payloads.
@@ -474,6 +477,11 @@ func runConc(p *concParams, prefix []int, extra func(w *harness.World, cr *concR
 		}
 		if extra != nil {
 			extra(w, cr)
+		}
+		if p.Residue && !closed && len(cr.Viol) == 0 {
+			vsched.Sleep(120e9)
+			w.CheckResidue("after the concurrent window and 120 virtual seconds of settling")
+			cr.Viol = append(cr.Viol, w.Viol...)
 		}
 		if !closed {
 			db.Close()
